@@ -104,9 +104,9 @@ def LSys.step (code : NextCode) (prog : NProg) (s : LSys) (t : Nat) : LSys :=
       match s.holder with
       | none => { s with fault := true, pcs := upd s.pcs t (some { f with ops := r }) }
       | some _ => { s with holder := none, pcs := upd s.pcs t (some { f with ops := r }) }
-    | .mapGet :: _ =>
+    | .mapGet :: r =>       -- the rest of `pre`, then the branch `if !ok`
       let p := gsRead s.gs f.key
-      { s with pcs := upd s.pcs t (some { f with ptr := p, ops := if p.isSome then code.hit else code.miss }) }
+      { s with pcs := upd s.pcs t (some { f with ptr := p, ops := r ++ if p.isSome then code.hit else code.miss }) }
     | .putFresh :: r =>
       { s with gs := gsPut s.gs f.key s.next, heap := upd s.heap s.next 0, next := s.next + 1,
                lin := s.lin ++ [(f.key, t, 0)], pcs := upd s.pcs t (some { f with ops := r }) }
